@@ -3,6 +3,7 @@
 from __future__ import annotations
 
 import gc
+import os
 import itertools
 
 import numpy as np
@@ -250,6 +251,101 @@ def body_parts(data) -> Outcome:
     return out
 
 
+def _run_learner(lp, reverse=False):
+    lrn = lp.learner
+    pts = list(enumerate(lrn.sequence))
+    if reverse:
+        pts.reverse()
+    for i, x in pts:
+        y = lrn._original_function(x)
+        lrn.tell((i, x), y)
+
+
+def _learners_after_crash(data, prog, pipe, inputs, folder, common, log, calls, ref, out) -> Outcome:
+    """Learners resumed on a store that an interrupted learner run left behind: a multi-output function dumps its
+    outputs one after the other, so a process death between the two dumps of element k leaves the first output of
+    k stored and the later ones missing.  The state is produced by running the learners up to the generation of that
+    function (the element is the one stored last in some legal order) and un-storing the later outputs of k."""
+    from pipefunc.map import load_outputs
+    from pipefunc.map.adaptive import create_learners
+
+    multi = [fn for fn in prog["funcs"] if fn["mapspec"] and len(fn["outs"]) > 1 and any(p["spec"] is not None for p in fn["params"])]
+    if not multi:
+        out.labels.append("n/a:no-multi-output-map-function")
+        return out
+    victim = multi[data["pick"] % len(multi)]
+    vcalls = [c for c in calls if c[0] == victim["name"]]
+    try:
+        ld = create_learners(pipe, inputs, folder, cleanup=True, **common)
+    except Exception as e:
+        out.fail(exc_bucket(e, "create_learners-refused"), exc_detail(e))
+        return out
+    first_pass_funcs = []
+    try:
+        (gens,) = ld.data.values()
+        for gen in gens:
+            for lp in gen:
+                _run_learner(lp, reverse=bool(data["order_key"] % 2))
+                first_pass_funcs.append(lp.pipefunc.__name__)
+            if any(lp.pipefunc.output_name == tuple(victim["outs"]) for lp in gen):
+                break
+    except Exception as e:
+        out.fail(exc_bucket(e, "learner-raised"), exc_detail(e))
+        return out
+    # the interrupted element and how many of its outputs made it to disk (at least the first, not the last)
+    ext = mp.ext_axes_of(victim)
+    ext_shape = tuple(prog["sizes"][a] for a in ext)
+    k = (data["pick"] // 7) % max(1, int(np.prod(ext_shape)))
+    kept = 1 + (data["pick"] // 3) % (len(victim["outs"]) - 1)
+    removed = []
+    for o in victim["outs"][kept:]:
+        path = os.path.join(folder, "outputs", o, f"__{k}__.pickle")
+        if os.path.exists(path):
+            os.unlink(path)
+            removed.append(o)
+    if not removed:
+        out.labels.append("n/a:element-file-not-found")
+        return out
+    first = list(log)
+    del log[:]
+    try:
+        ld2 = create_learners(pipe, inputs, folder, cleanup=False, **common)
+        for gens in ld2.data.values():
+            for gen in gens:
+                for lp in gen:
+                    _run_learner(lp, reverse=bool((data["order_key"] >> 1) % 2))
+    except Exception as e:
+        out.fail(exc_bucket(e, "resumed-learner-raised"), exc_detail(e))
+        return out
+    second = list(log)
+    out.labels.append("learners-resumed-after-crash-between-outputs")
+    out.nontrivial = True
+    ids_k = dict(zip(ext, np.unravel_index(k, ext_shape))) if ext else {}
+    redo = [(c[0], c[1]) for c in vcalls if all(c[2].get(a) == int(v) for a, v in ids_k.items())]
+    want_total = sorted([(c[0], c[1]) for c in calls] + redo)
+    got_total = sorted(first + second)
+    if got_total != want_total:
+        missing = [c for c in want_total if got_total.count(c) < want_total.count(c)][:3]
+        extra = [c for c in got_total if got_total.count(c) > want_total.count(c)][:3]
+        out.fail("crash-resume-calls-" + ("interrupted-element-not-recomputed" if any(c in redo for c in missing) else "wrong"),
+                 f"element {k} of {victim['name']} lost {removed}: missing {missing} extra {extra}")
+    for o in mp.output_names(prog):
+        try:
+            lo = load_outputs(o, run_folder=folder)
+            if mp.canon(lo) != mp.canon(ref[o]):
+                out.fail("crash-resume-final-data-differs", f"{o}: got {str(mp.canon(lo))[:200]} want {str(mp.canon(ref[o]))[:200]}")
+        except Exception as e:
+            out.fail(exc_bucket(e, "crash-resume-final-load-raised"), exc_detail(e))
+    del log[:]
+    try:
+        pipe.map(inputs, run_folder=folder, cleanup=False, parallel=False, **common)
+        if log:
+            out.fail("crash-resume-final-full-run-recomputed", repr(list(log))[:300])
+    except Exception as e:
+        out.fail(exc_bucket(e, "crash-resume-final-full-run-raised"), exc_detail(e))
+    return out
+
+
 def body_learners(data) -> Outcome:
     from pipefunc.map import load_outputs
     from pipefunc.map.adaptive import create_learners
@@ -265,13 +361,20 @@ def body_learners(data) -> Outcome:
     log = _Log()
     folder = boot.fresh_path("c06l")
     try:
+        # functions with resources_scope="element" get one learner per element instead of one per function
+        elem_scope = [fn["name"] for k, fn in enumerate(prog["funcs"]) if fn["mapspec"] and (data["pick"] >> (4 + k)) & 1]
+        pf_extra = {f: {"resources": {"cpus": 1}, "resources_scope": "element"} for f in elem_scope}
+        if elem_scope:
+            out.labels.append("element-scope-learners")
         try:
-            pipe = mp.build_pipeline(prog, log)
+            pipe = mp.build_pipeline(prog, log, pf_extra=pf_extra)
         except Exception:
             out.labels.append("n/a:build-refused")
             return out
         inputs = mp.make_inputs(prog)
         common = dict(internal_shapes=mp.internal_shapes_arg(prog), storage=mp.storage_arg(prog))
+        if mode == "crash":
+            return _learners_after_crash(data, prog, pipe, inputs, folder, common, log, calls, ref, out)
         runs = []  # list of kwargs for create_learners
         if mode == "fixed":
             if not ind:
@@ -341,6 +444,38 @@ def body_learners(data) -> Outcome:
     return out
 
 
+def _reducers(prog) -> dict:
+    """axis -> names of the functions that reduce it (take it whole: no MapSpec, unmapped parameter, or ':')."""
+    axes_of = carried_axes(prog)
+    named = {a for fn in prog["funcs"] if fn["mapspec"] for p in fn["params"] if p["spec"] for a in p["spec"] if a}
+
+    def named_for(arr, a):
+        k = axes_of.get(arr, []).index(a)
+        if any(arr in g["outs"] and g["mapspec"] for g in prog["funcs"]):
+            return True
+        return any(q["name"] == arr and q["spec"] is not None and q["spec"][k] == a
+                   for g in prog["funcs"] if g["mapspec"] for q in g["params"])  # fmt: skip
+
+    red: dict = {}
+    for fn in prog["funcs"]:
+        for p in fn["params"]:
+            ax = axes_of.get(p["name"], [])
+            if not ax:
+                continue
+            if p["spec"] is None or not fn["mapspec"]:
+                r = set(ax)
+            else:
+                r = {x for x, s in zip(ax, p["spec"]) if s is None}
+            for a in r:
+                if a in named and named_for(p["name"], a):
+                    red.setdefault(a, set()).add(fn["name"])
+    return red
+
+
+def _reduced_named_axes(prog) -> set:
+    return set(_reducers(prog))
+
+
 def body_reject(data) -> Outcome:
     out = Outcome()
     prog, why = data["prog"], data["why"]
@@ -369,32 +504,33 @@ def body_reject(data) -> Outcome:
             fi = {a: [n, n + 1, -n - 1][data["pick"] % 3]}
             want = IndexError
         else:  # reduced axis
-            named = {a for fn in prog["funcs"] if fn["mapspec"] for p in fn["params"] if p["spec"] for a in p["spec"] if a}
-            def named_for(arr, a):
-                k = axes_of.get(arr, []).index(a)
-                if any(arr in g["outs"] and g["mapspec"] for g in prog["funcs"]):
-                    return True
-                return any(q["name"] == arr and q["spec"] is not None and q["spec"][k] == a
-                           for g in prog["funcs"] if g["mapspec"] for q in g["params"])
-
-            reduced = set()
-            for fn in prog["funcs"]:
-                for p in fn["params"]:
-                    ax = axes_of.get(p["name"], [])
-                    if not ax:
-                        continue
-                    if p["spec"] is None or not fn["mapspec"]:
-                        red = set(ax)
-                    else:
-                        red = {x for x, s in zip(ax, p["spec"]) if s is None}
-                    reduced |= {a for a in red if named_for(p["name"], a)}
-            reduced &= named
+            reduced = _reduced_named_axes(prog)
             if not reduced:
                 out.labels = ["n/a:" + why]
                 return out
             a = sorted(reduced)[data["pick"] % len(reduced)]
             fi = {a: 0}
             want = ValueError
+            # history variant: the reducers of `a` join the pipeline *after* a partial run that legitimately fixed `a`
+            reducers = _reducers(prog)[a]
+            consumers = {fn["name"] for fn in prog["funcs"] for p in fn["params"]
+                         for g in prog["funcs"] if g["name"] in reducers and p["name"] in g["outs"]}  # fmt: skip
+            if (data["pick"] >> 5) % 4 and not (consumers - reducers) and len(reducers) < len(prog["funcs"]):
+                prog0 = dict(prog, funcs=[fn for fn in prog["funcs"] if fn["name"] not in reducers])
+                if a in independent_axes(prog0):
+                    try:
+                        pipe = mp.build_pipeline(prog0, log)
+                        pipe.map({k: v for k, v in inputs.items() if k in mp.used_roots(prog0)}, run_folder=folder, fixed_indices=fi,
+                                 internal_shapes=mp.internal_shapes_arg(prog0), storage=mp.storage_arg(prog0), parallel=False)  # fmt: skip
+                        for pf in mp.make_pipefuncs(prog, log):
+                            if pf.__name__ in reducers:
+                                pipe.add(pf)
+                    except Exception:
+                        out.labels = ["n/a:history-variant-setup-refused"]
+                        return out
+                    del log[:]
+                    boot.rm(folder)
+                    out.labels.append("reducer-added-after-a-partial-run")
         try:
             pipe.map(inputs, run_folder=folder, fixed_indices=fi, internal_shapes=mp.internal_shapes_arg(prog),
                      storage=mp.storage_arg(prog), parallel=False)  # fmt: skip
@@ -422,16 +558,16 @@ def campaigns(tier):
         {"prog": progs, "part_bits": st.integers(0, 2**16 - 1), "order_key": st.integers(0, 2**18 - 1), "pick": st.integers(0, 2**12 - 1)}
     )
     learners = st.fixed_dictionaries(
-        {"prog": progs, "mode": st.sampled_from(["split", "whole", "fixed", "split"]), "part_bits": st.integers(0, 2**16 - 1),
+        {"prog": progs, "mode": st.sampled_from(["split", "whole", "fixed", "split", "crash"]), "part_bits": st.integers(0, 2**16 - 1),
          "order_key": st.integers(0, 2**18 - 1), "pick": st.integers(0, 2**12 - 1)}
     )  # fmt: skip
     reject = st.fixed_dictionaries(
-        {"prog": progs, "why": st.sampled_from(["unknown", "out-of-range", "reduced"]), "pick": st.integers(0, 2**12 - 1)}
+        {"prog": progs, "why": st.sampled_from(["unknown", "out-of-range", "reduced", "reduced", "reduced"]), "pick": st.integers(0, 2**12 - 1)}
     )
     return [
         Campaign("parts", body_parts, parts, quick=1500, thorough=16000, describe="map(fixed_indices=part) per part of a partition, drawn order"),
         Campaign("learners", body_learners, learners, quick=1200, thorough=12000, describe="create_learners (split / whole / fixed parts), drawn evaluation order"),
-        Campaign("reject", body_reject, reject, quick=300, thorough=3000, describe="fixed_indices that must be rejected"),
+        Campaign("reject", body_reject, reject, quick=800, thorough=8000, describe="fixed_indices that must be rejected"),
     ]
 
 
